@@ -187,7 +187,7 @@ Proof.
     apply (closed_header_app (exc_block c suite)); [apply closed_exc_block|].
     apply (closed_header_app (sut_block c)); [apply closed_sut_block|].
     cbn [closed_header uses_top forallb]. rewrite !andb_true_r.
-    apply andb_true_iff. split; apply ok_name_spec; right; rewrite !in_app_iff; right; right; simpl; tauto.
+    apply ok_name_spec; right; rewrite !in_app_iff; right; right; simpl; tauto.
   - apply closed_header_app.
     + destruct (needs_pytest c suite); reflexivity.
     + apply closed_header_app; [apply closed_sut_block|apply closed_exc_block].
